@@ -81,6 +81,17 @@ def cases(tier):
         for t in NUM_TAGS:
             for path in ('wire', 'driver'):
                 out.append(case('run_validate', f'{name}/{t}/{path}', shape=shape, cand=t, path=path))
+    # scaled integers with limits far from zero (10**9 and 2**24 steps): candidates in a window around each limit
+    for sname, sc, (klo, khi) in (('0.001', 0.001, (0, 10 ** 9)), ('0.01-default', 0.01, (-(1 << 24), 1 << 24)), ('0.5', 0.5, (-(10 ** 8), 10 ** 8))):
+        shape = {'k': 'scaled', 'scale': sc, 'fixed': [klo, khi]}
+        for end, kk in (('hi', khi), ('lo', klo)):
+            c = case('run_validate', f'scaled-far-{sname}/{end}/int/wire', shape=shape, cand='int', path='wire')
+            c['params']['box'] = {'near': [kk, 120]}
+            out.append(c)
+            for path in ('driver',):
+                c = case('run_validate', f'scaled-far-{sname}/{end}/float/{path}', shape=shape, cand='float', path=path)
+                c['params']['box'] = {'near': [kk * sc, 120 * sc]}
+                out.append(c)
     for path in ('wire', 'driver'):
         out.append(case('run_validate', f'int/bigint/{path}', shape=I, cand='bigint', path=path))
         out.append(case('run_validate', f'array-int/bigint/{path}', shape={'k': 'array', 'of': I}, cand=['list', ['bigint']], path=path))
